@@ -183,10 +183,12 @@ theorem value_error_truthful (s : State) (p m : Str) (hc : s.closed = false)
     · simp at h
 
 /-- a mode string is accepted iff it is non-empty, starts with r/w/x/a, uses only the
-characters `rwxab+` (no `t` for binary opens) -/
+characters `rwxab+` (no `t` for binary opens), repeats no character and contains exactly one of
+`r w x a` (the last two since `fix: Mode.validate rejects the mode strings io.open rejects`) -/
 theorem mode_accept_iff (m : Str) :
     (parseBinMode m).isSome = true ↔
-      (∃ c rest, m = c :: rest ∧ c ∈ ['r', 'w', 'x', 'a']) ∧ (∀ x ∈ m, x ∈ ['r', 'w', 'x', 'a', 'b', '+']) := by
+      (∃ c rest, m = c :: rest ∧ c ∈ ['r', 'w', 'x', 'a']) ∧ (∀ x ∈ m, x ∈ ['r', 'w', 'x', 'a', 'b', '+']) ∧
+      m.Nodup ∧ (['r', 'w', 'x', 'a'].filter fun x => m.contains x).length = 1 := by
   cases m with
   | nil => simp [parseBinMode]
   | cons c rest =>
@@ -211,11 +213,19 @@ theorem mode_accept_iff (m : Str) :
       · rintro ⟨c', rest', heq, hc⟩; cases heq; simpa using hc
       · intro h; exact ⟨c, rest, rfl, by simpa using h⟩
     rw [key, k2]
+    have k3 : (['r', 'w', 'x', 'a'].filter fun x => (c :: rest).contains x).length = 1 ↔
+        ((['r', 'w', 'x', 'a'].filter fun x => (c :: rest).contains x).length != 1) = false := by
+      simp
+    rw [k3]
+    by_cases hN : (c :: rest).Nodup <;>
+    cases hO : ((['r', 'w', 'x', 'a'].filter fun x => (c :: rest).contains x).length != 1) <;>
     cases hA : (c :: rest).all (fun x => modeValidChars.contains x) <;>
     cases hB : ['r', 'w', 'x', 'a'].contains c <;>
     cases hT : (c :: rest).contains 't' <;>
-    simp only [parseBinMode, hA, hB, hT] <;> simp
+    simp only [parseBinMode, hA, hB, hT, hN, hO] <;> simp
 
+example : (parseBinMode "r+b".toList).isSome = true ∧ parseBinMode "rw".toList = none ∧
+    parseBinMode "r++".toList = none ∧ parseBinMode "wbb".toList = none := by decide
 example : (step State.empty (.removedir "/".toList)).2 = .err .RemoveRootError := by decide
 example : Err.ResourceNotFound ∈ adm State.empty (.readbytes "nope".toList) := by decide
 
